@@ -184,7 +184,8 @@ def nohdr(t):
 
 def main():
     args = sys.argv[1:]
-    opt = {"--out": "/tmp/mutants", "--files": "", "--limit": "0", "--seed": "1", "--stride": "1", "--offset": "0"}
+    opt = {"--out": "/tmp/mutants", "--files": "", "--limit": "0", "--seed": "1", "--stride": "1", "--offset": "0",
+           "--only": "", "--scale": "1"}   # --only file:line,file:line … ; --scale multiplies the suite sizes
     i = 0
     while i < len(args):
         opt[args[i]] = args[i + 1]; i += 2
@@ -197,6 +198,9 @@ def main():
         allfiles += ["suffix/" + f for f in sorted(os.listdir(os.path.join(wt, "suffix"))) if f.endswith(".go") and not f.endswith("_test.go") and not f.startswith("verif_")]
         files = [f for f in opt["--files"].split(",") if f] or allfiles
         muts = gen_mutants(wt, files)
+        if opt["--only"]:
+            want_sites = set(opt["--only"].split(","))
+            muts = [m for m in muts if "%s:%d" % (m["file"], m["line"]) in want_sites]
         random.Random(int(opt["--seed"])).shuffle(muts)
         muts = muts[int(opt["--offset"])::int(opt["--stride"])]
         if int(opt["--limit"]): muts = muts[:int(opt["--limit"])]
@@ -242,6 +246,7 @@ def main():
                 status, detail = "SURVIVED", ""
                 for su in FILE_SUITES.get(key, list(sizes)):
                     n, hang = sizes[su]
+                    n = n * int(opt["--scale"])
                     sd = os.path.join(out, "run"); shutil.rmtree(sd, ignore_errors=True); os.makedirs(sd)
                     rc, log = sh([exe, "run", "-suite", su, "-seed", opt["--seed"], "-n", str(n), "-shards", "8", "-out", sd, "-hang", "5s"],
                                  env=dict(GOENV, GOMEMLIMIT="6GiB"), timeout=900)
